@@ -363,14 +363,14 @@ def _on_alarm(signum, frame):
     raise CaseTimeout()
 
 
-def _impl_safe(chk, case):
+def _impl_safe(chk, case, factor=1):
     """Run chk.impl(case) under a wall-clock limit (a hanging implementation must
     not hang the check) and turn unexpected exceptions into a visible observation."""
     import signal
 
     import resource
 
-    limit = int(getattr(chk, "CASE_TIMEOUT", 30))
+    limit = int(getattr(chk, "CASE_TIMEOUT", 30)) * factor
     old = signal.signal(signal.SIGALRM, _on_alarm)
     signal.alarm(limit)
     soft, hard = resource.getrlimit(resource.RLIMIT_AS)
@@ -430,6 +430,10 @@ def run_check(chk: Check, tier="quick", seed=0, replay=None):
         cases = chk.corpus() + list(chk.gen(rng.fork("gen"), n, tier))
     procs = chk.PROCS_QUICK if tier == "quick" else chk.PROCS_THOROUGH
     obs = parallel_map(lambda c: _impl_safe(chk, c), cases, procs)
+    # a time-out on a loaded machine is not a property failure: retry alone with a 6x limit
+    for i, o in enumerate(obs):
+        if isinstance(o, dict) and str(o.get("__crash__", "")).startswith("timeout"):
+            obs[i] = _impl_safe(chk, cases[i], factor=6)
 
     # 3. correspondence ------------------------------------------------------
     disagreements = []
@@ -597,6 +601,10 @@ def run_check(chk: Check, tier="quick", seed=0, replay=None):
             ev["coverage"].update(chk.extra_evidence(cases, obs, model_outs))
         except Exception as e:
             ev["coverage"]["extra_evidence_error"] = str(e)
+    cov = ev["coverage"]
+    if "exhaustive" in cov and not isinstance(cov["exhaustive"], bool):  # schema: boolean
+        cov["exhaustive_detail"] = cov["exhaustive"]
+        cov["exhaustive"] = False
     if not replay:
         write_json(os.path.join(VERIF, "evidence", f"{prop}.json"), ev)
     for l in lines:
